@@ -4,9 +4,15 @@
 package main
 
 import (
+	"bufio"
 	"context"
+	"encoding/json"
+	"flag"
 	"fmt"
+	"os"
+	"os/exec"
 	"sort"
+	"strings"
 	"sync"
 	"time"
 
@@ -69,13 +75,14 @@ func has(l []int, x int) bool {
 }
 
 type outcome struct {
-	code     int
-	saves    []int
-	defs     []int
-	mpoints  []int
-	cancels  []int
-	lastSave int // highest offset whose deferred ran, -1 if none
-	errtext  string
+	Code     int    `json:"code"`
+	Saves    []int  `json:"saves"`
+	Defs     []int  `json:"defs"`
+	Mpoints  []int  `json:"mpoints"`
+	Cancels  []int  `json:"cancels"`
+	LastSave int    `json:"last_save"` // highest offset whose deferred ran, -1 if none
+	Errtext  string `json:"errtext"`
+	Panic    string `json:"panic,omitempty"`
 }
 
 func runCase(rp replay, r *vh.Rand) outcome {
@@ -146,25 +153,25 @@ func runCase(rp replay, r *vh.Rand) outcome {
 		nil,
 		mergef,
 	)
-	o := outcome{lastSave: -1}
+	o := outcome{LastSave: -1}
 	switch {
 	case err == nil:
-		o.code = 0
+		o.Code = 0
 	case rp.Count < 1:
-		o.code = 1
+		o.Code = 1
 	case errors.Is(err, errSave):
-		o.code = 3
+		o.Code = 3
 	case errors.Is(err, errDef):
-		o.code = 4
+		o.Code = 4
 	case errors.Is(err, errMerge):
-		o.code = 5
+		o.Code = 5
 	case errors.Is(err, errImport), errors.Is(err, util.ErrNotFound):
-		o.code = 2
+		o.Code = 2
 	default:
-		o.code = 99
+		o.Code = 99
 	}
 	if err != nil {
-		o.errtext = err.Error()
+		o.Errtext = err.Error()
 	}
 	// a moment for jobs still running after an early Wait return (C33) -- they cannot add events here
 	rec.Lock()
@@ -173,30 +180,30 @@ func runCase(rp replay, r *vh.Rand) outcome {
 	for _, e := range rec.evs {
 		switch e.kind {
 		case 's':
-			o.saves = append(o.saves, e.i)
+			o.Saves = append(o.Saves, e.i)
 		case 'd':
-			o.defs = append(o.defs, e.i)
+			o.Defs = append(o.Defs, e.i)
 			nd++
-			if e.i > o.lastSave {
-				o.lastSave = e.i
+			if e.i > o.LastSave {
+				o.LastSave = e.i
 			}
 		case 'm':
-			o.mpoints = append(o.mpoints, nd)
+			o.Mpoints = append(o.Mpoints, nd)
 		case 'c':
-			o.cancels = append(o.cancels, e.i)
+			o.Cancels = append(o.Cancels, e.i)
 		}
 	}
-	sort.Ints(o.saves)
-	sort.Ints(o.cancels)
-	if o.code == 3 {
+	sort.Ints(o.Saves)
+	sort.Ints(o.Cancels)
+	if o.Code == 3 {
 		// which other Saves of the failing batch ran is not determined: drop the cancelled batch
 		var s []int
-		for _, x := range o.saves {
-			if !has(o.cancels, x) {
+		for _, x := range o.Saves {
+			if !has(o.Cancels, x) {
 				s = append(s, x)
 			}
 		}
-		o.saves = s
+		o.Saves = s
 	}
 	return o
 }
@@ -240,14 +247,30 @@ func eqInts(a, b []int) bool {
 	return true
 }
 
+type planned struct {
+	rp     replay
+	bucket string
+}
+
 func main() {
+	isChild := flag.Bool("c15child", false, "")
+	cfrom := flag.Int("c15from", 0, "")
 	o := vh.ParseFlags()
 	res := vh.NewResult("real isaacblock.ImportBlocks with recording importers: exhaustive (count,limit) grid without faults, plus random fault injection (job / Save / deferred / merge failures) and random job timing; non-trivial = count > 1 and (count is a multiple of limit, or a fault is injected, or count > limit)")
 	r := vh.NewRand(o.Seed)
 	cases := &vh.Cases{Import: "From MV Require Import C15.Model.", Type: "case", CheckFn: "check", Shard: 400}
 
-	do := func(rp replay, bucket string) {
-		oc := runCase(rp, r)
+	// the cases are planned first (deterministically from the seed), then run in a child process: a
+	// panic inside a worker goroutine of ImportBlocks kills the process and must be an observable
+	var plan []planned
+	do := func(rp replay, bucket string) { plan = append(plan, planned{rp, bucket}) }
+	process := func(rp replay, bucket string, oc outcome) {
+		if oc.Panic != "" {
+			res.Count(fmt.Sprintf("%d/%d/panic", rp.Count, rp.Limit), true)
+			res.Dist(bucket)
+			res.Fail("panic", fmt.Sprintf("ImportBlocks(count=%d, limit=%d) crashed the process: %s", rp.Count, rp.Limit, oc.Panic), rp)
+			return
+		}
 		key := fmt.Sprintf("%d/%d/%v/%v/%v/%v/%v", rp.Count, rp.Limit, rp.FImport, rp.FSave, rp.FDef, rp.FMerge, rp.HasMerge)
 		nofault := len(rp.FImport)+len(rp.FSave)+len(rp.FDef)+len(rp.FMerge) == 0
 		res.Count(key, rp.Count > 1 && (rp.Count%rp.Limit == 0 || !nofault || rp.Count > rp.Limit))
@@ -256,32 +279,32 @@ func main() {
 			res.Dist("count_multiple_of_limit")
 		}
 		// ---- property oracle (independent of the model): success => every block stored and merged
-		if oc.code == 0 {
+		if oc.Code == 0 {
 			all := seqInts(rp.Count)
 			switch {
-			case !eqInts(oc.saves, all) || !eqInts(oc.defs, all):
+			case !eqInts(oc.Saves, all) || !eqInts(oc.Defs, all):
 				res.Fail("success-without-storing-every-block",
 					fmt.Sprintf("ImportBlocks(count=%d, limit=%d) returned nil but saved offsets %v, merged (deferred) %v; last stored height offset %d, want %d",
-						rp.Count, rp.Limit, oc.saves, oc.defs, oc.lastSave, rp.Count-1), rp)
-			case rp.HasMerge && (len(oc.mpoints) == 0 || oc.mpoints[len(oc.mpoints)-1] != rp.Count):
+						rp.Count, rp.Limit, oc.Saves, oc.Defs, oc.LastSave, rp.Count-1), rp)
+			case rp.HasMerge && (len(oc.Mpoints) == 0 || oc.Mpoints[len(oc.Mpoints)-1] != rp.Count):
 				res.Fail("success-without-final-merge",
 					fmt.Sprintf("ImportBlocks(count=%d, limit=%d) returned nil but the merge callback did not run after the last block (merge points %v)",
-						rp.Count, rp.Limit, oc.mpoints), rp)
+						rp.Count, rp.Limit, oc.Mpoints), rp)
 			}
 		} else if nofault && rp.Count >= 1 {
-			res.Fail("error-without-fault", fmt.Sprintf("ImportBlocks(count=%d, limit=%d) failed without an injected fault: %s", rp.Count, rp.Limit, oc.errtext), rp)
+			res.Fail("error-without-fault", fmt.Sprintf("ImportBlocks(count=%d, limit=%d) failed without an injected fault: %s", rp.Count, rp.Limit, oc.Errtext), rp)
 		}
-		if oc.code == 99 {
-			res.Fail("unclassified-error", oc.errtext, rp)
+		if oc.Code == 99 {
+			res.Fail("unclassified-error", oc.Errtext, rp)
 		}
 		term := vh.Tuple(
 			vh.Tuple(vh.Nat(rp.Count), vh.Nat(rp.Limit), vh.Bool(rp.RevOrder)),
 			vh.Tuple(natList(rp.FImport), natList(rp.FSave), natList(rp.FDef), natList(rp.FMerge), vh.Bool(rp.HasMerge)),
-			vh.Tuple(vh.Nat(oc.code), natList(oc.saves), natList(oc.defs), natList(oc.mpoints), natList(oc.cancels)),
+			vh.Tuple(vh.Nat(oc.Code), natList(oc.Saves), natList(oc.Defs), natList(oc.Mpoints), natList(oc.Cancels)),
 		)
-		cases.Add(term, map[string]any{"input": rp, "impl": map[string]any{"code": oc.code, "saves": oc.saves, "deferreds": oc.defs, "merge_points": oc.mpoints, "cancels": oc.cancels, "err": oc.errtext}})
+		cases.Add(term, map[string]any{"input": rp, "impl": map[string]any{"code": oc.Code, "saves": oc.Saves, "deferreds": oc.Defs, "merge_points": oc.Mpoints, "cancels": oc.Cancels, "err": oc.Errtext}})
 		if bucket == "fault" {
-			res.Sample(map[string]any{"input": rp, "code": oc.code, "deferreds": oc.defs, "merge_points": oc.mpoints})
+			res.Sample(map[string]any{"input": rp, "code": oc.Code, "deferreds": oc.Defs, "merge_points": oc.Mpoints})
 		}
 	}
 
@@ -290,8 +313,6 @@ func main() {
 		if err := vh.ReadReplay(o.Replay, &rp); err != nil {
 			panic(err)
 		}
-		oc := runCase(rp, r)
-		fmt.Printf("replay %+v => %+v\n", rp, oc)
 		do(rp, "replay")
 	}
 
@@ -351,6 +372,81 @@ func main() {
 		do(rp, "fault")
 	}
 
+	if *isChild {
+		out := bufio.NewWriter(os.Stdout)
+		for idx, pl := range plan {
+			if idx < *cfrom {
+				continue
+			}
+			fmt.Fprintf(out, "START %d\n", idx)
+			out.Flush()
+			oc := runCase(pl.rp, vh.NewRand(o.Seed*1000003+uint64(idx)))
+			b, _ := json.Marshal(oc)
+			fmt.Fprintf(out, "RESULT %s\n", b)
+			out.Flush()
+		}
+		fmt.Fprintln(out, "END")
+		out.Flush()
+		return
+	}
+	from, crashes := 0, 0
+	for from < len(plan) && crashes < 100 {
+		args := []string{"-c15child", "-c15from", fmt.Sprint(from), "-seed", fmt.Sprint(o.Seed), "-tier", o.Tier}
+		if o.Replay != "" {
+			args = append(args, "-replay", o.Replay)
+		}
+		if o.N > 0 {
+			args = append(args, "-n", fmt.Sprint(o.N))
+		}
+		cmd := exec.Command(os.Args[0], args...)
+		stdout, _ := cmd.StdoutPipe()
+		var stderr strings.Builder
+		cmd.Stderr = &stderr
+		if err := cmd.Start(); err != nil {
+			panic(err)
+		}
+		sc := bufio.NewScanner(stdout)
+		sc.Buffer(make([]byte, 1<<20), 1<<24)
+		cur, ended := -1, false
+		for sc.Scan() {
+			line := sc.Text()
+			switch {
+			case strings.HasPrefix(line, "START "):
+				fmt.Sscanf(line[6:], "%d", &cur)
+			case strings.HasPrefix(line, "RESULT "):
+				var oc outcome
+				if err := json.Unmarshal([]byte(line[7:]), &oc); err != nil {
+					panic(err)
+				}
+				process(plan[cur].rp, plan[cur].bucket, oc)
+				from, cur = cur+1, -1
+			case line == "END":
+				ended = true
+			}
+		}
+		_ = cmd.Wait()
+		if ended {
+			break
+		}
+		crashes++
+		msg := stderr.String()
+		if i := strings.Index(msg, "panic:"); i >= 0 {
+			msg = msg[i:]
+		}
+		if len(msg) > 400 {
+			msg = msg[:400]
+		}
+		if cur >= 0 {
+			process(plan[cur].rp, plan[cur].bucket, outcome{Panic: msg})
+			from = cur + 1
+		} else {
+			res.Fail("panic", "the process crashed between two cases: "+msg, nil)
+		}
+	}
+	res.Distribution["child_crashes"] = crashes
+	if from < len(plan) {
+		res.Fail("harness-incomplete", fmt.Sprintf("only %d of %d cases ran", from, len(plan)), nil)
+	}
 	res.ModelCases = cases.Len()
 	if err := cases.Write(o.Out); err != nil {
 		panic(err)
